@@ -99,6 +99,9 @@ class _GraphIO(collections.UserList["_core.Value"]):
         # This is a shallow copy, so the values are not copied, just the references
         return self.data.copy()
 
+    # copy.copy() must not create a second tracked container for the same graph
+    __copy__ = copy
+
     def __setitem__(self, i, item) -> None:
         """Replace an input/output to the node."""
         if isinstance(item, Iterable) and isinstance(i, slice):
@@ -302,6 +305,13 @@ class GraphInitializers(collections.UserDict[str, "_core.Value"]):
     def add(self, value: _core.Value) -> None:
         """Add an initializer to the graph."""
         self[value.name] = value  # type: ignore[index]
+
+    def copy(self) -> dict[str, _core.Value]:  # type: ignore[override]
+        """Return a shallow copy of the initializers as a plain ``dict``."""
+        # Like _GraphIO.copy(): a copy is not a second tracked container of the same graph
+        return self.data.copy()
+
+    __copy__ = copy
 
     # ------------------------------------------------------------------
     # Tensor-centric convenience accessors
